@@ -131,6 +131,10 @@ def irset(r, toggle: bool = None, special: bool = None, density: float = None, l
                         keys.append(b + fan + "_d1")
                 elif r.random() < 0.1:
                     keys.append(b + fan + "_d1")  # swing entry without its plain sibling
+    temp_modes = [m for m in modes if m in ("COOL", "HEAT")]
+    if temp_modes and r.random() < 0.06:
+        # a frost-protection / eco entry far below the comfort range: a one-digit temperature under a bare key ("ah8")
+        keys.append(MODE_PREFIX[r.choice(temp_modes)] + str(r.randrange(5, 10)))
     # keep the declared temperature range visible in the plain keys
     if toggle:
         plain = list(keys)
@@ -260,6 +264,12 @@ def broadcast_desc(r, model: str, i: int, tag: str) -> Dict[str, Any]:
                 name += c
             elif len(name.encode()) < 32:
                 name += "x"
+    if r.random() < 0.03:
+        # a name saved by a desktop tool: it starts with U+FEFF (zero width no-break space / byte order mark), which is part of the name
+        cut = name
+        while len(("\ufeff" + cut).encode()) > 32:
+            cut = cut[:-1]
+        name = "\ufeff" + cut
     if r.random() < 0.04 and len(name.encode()) >= 3:
         name = r.choice([" " + name[1:], name[:-1] + " ", " " + name[1:-1] + " ", "\u00a0" + name[2:] if len((("\u00a0" + name[2:]).encode())) <= 32 else name])
     d: Dict[str, Any] = {
@@ -283,6 +293,7 @@ def broadcast_desc(r, model: str, i: int, tag: str) -> Dict[str, Any]:
     d["swing"] = ("ON", "OFF")[(i // 20) % 2]
     d["temp_tenths"] = r.choice(edge16) if r.random() < 0.15 else r.randrange(65536)
     d["target"] = r.randrange(256)
+    d["clock"] = 1_790_000_000 + r.randrange(-12, 13)     # the device's own clock (header bytes 24..27): devices under one id differ by seconds, both ways
     d["remote_id"] = "".join(r.choice(RID_CHARS) for _ in range(8))
     if r.random() < 0.04:
         # the ids of real remotes, also as a device with another firmware spells them
